@@ -119,7 +119,7 @@ def run(ctx):
                 X = join_elt(g, tt, [0.0, 0.0, 0.0, 1.0], ss)
             elif t % 4 == 2:
                 tt, qq, ss = split_elt(g, X)
-                h = 1e-9
+                h = 1e-5     # small but not in the zone eps < theta <= 1e-7 where calcQ's closed forms cancel (C04 known finding)
                 X = [float(v) for v in torch.tensor(join_elt(g, tt, [h * 0.6, -h * 0.8, 0.0, 1.0], ss), dtype=dtype).tolist()]
             p = [rng.uniform(-2, 2) if t % 5 else 0.0 for _ in range(ADIM[g])]
             Xg = pp.LieTensor(torch.tensor(X, dtype=dtype), ltype=getattr(pp, g + '_type'))
